@@ -599,3 +599,33 @@ def p5(ctx):
 def p6(ctx):
     from .c01 import skip_obligations
     return skip_obligations(ctx)
+
+
+@rule("C03", "P7", floor=1, kind="S",
+      desc="If-None-Match: * is decided and acted on without a gap: create_member passes no expected state to the store, so "
+           "between PUT's lookup and the store call there is no suspension point - import_one is called directly, not "
+           "through await / to_thread (set_body may suspend because it hands the observed ETag to the store, which re-checks)")
+def p7(ctx):
+    fi = ctx.own_method("xandikos.web.StoreBasedCollection", "create_member")
+    cfg = ctx.cfg(fi)
+    obs = []
+    n = 0
+    for x in cfg.stmt_nodes():
+        for e in x.exprs():
+            for y in ast.walk(e):
+                if isinstance(y, ast.Call) and "import_one" in src(y):
+                    direct = isinstance(y.func, ast.Attribute) and y.func.attr == "import_one"
+                    via_thread = (dotted(y.func) or "").split(".")[-1] in ("to_thread", "run_in_executor", "create_task", "ensure_future")
+                    if not (direct or via_thread):
+                        continue
+                    n += 1
+                    guarded = any(k.arg == "replace_etag" and not (isinstance(k.value, ast.Constant) and k.value.value is None) for k in y.keywords)
+                    obs.append(ctx.ob(direct or guarded, fi.qualname, "%s:%d" % (fi.module.rel, x.lineno), "the create is not separated from its precondition",
+                                      "store.import_one(...) is called directly",
+                                      "create_member runs import_one through `%s` without an expected state: the request suspends between "
+                                      "PUT's If-None-Match / If-Match check and the write, a second PUT for the same new name passes its check in "
+                                      "the gap, and both are answered 201 - the later one replaces the first" % src(y.func)))
+                    break
+    if not n:
+        raise AnalysisError("create_member: import_one call not found")
+    return obs[:1] if obs else obs
